@@ -37,15 +37,7 @@ impl Stream {
 }
 impl IRReader {
 //@ extract fn read from src/classic/clvm_tools/ir/reader.rs in impl IRReader
-//@ sig r
-    requires stream_wf(rd_stream(*old(self))), stream_seek(rd_stream(*old(self))) + n <= usize::MAX
-    ensures
-        stream_wf(rd_stream(*final(self))), stream_same_data(rd_stream(*old(self)), rd_stream(*final(self))),
-        ({ let rest = rd_rest(*old(self));
-           let k = if n <= rest.len() { n as int } else { rest.len() as int };
-           bv(r) == rest.subrange(0, k)
-           && stream_seek(rd_stream(*final(self))) == stream_seek(rd_stream(*old(self))) + k
-           && rd_rest(*final(self)) == rest.subrange(k, rest.len() as int) }),
+//@ sigfile r contracts/irreader_read.sig
 //@ end
 }
 
@@ -58,19 +50,7 @@ pub open spec fn escaped(s: Seq<u8>, esc: Set<u8>) -> Seq<u8>
         (if esc.contains(s[0]) { seq![0x5cu8, s[0]] } else { seq![s[0]] }) + escaped(s.subrange(1, s.len() as int), esc)
     }
 }
-// the reader's scan of the bytes after the opening quote: (string, number of bytes consumed including the closing quote)
-pub open spec fn scan(rest: Seq<u8>, q: u8, bs: bool) -> Option<(Seq<u8>, int)>
-    decreases rest.len()
-{
-    if rest.len() == 0 { None } else {
-        let c = rest[0];
-        let r = rest.subrange(1, rest.len() as int);
-        if bs { match scan(r, q, false) { Some((s, n)) => Some((seq![c] + s, n + 1)), None => None } }
-        else if c == 0x5cu8 { match scan(r, q, true) { Some((s, n)) => Some((s, n + 1)), None => None } }
-        else if c == q { Some((Seq::<u8>::empty(), 1int)) }
-        else { match scan(r, q, false) { Some((s, n)) => Some((seq![c] + s, n + 1)), None => None } }
-    }
-}
+//@ include units/inc/scan.rs
 // the round trip the property states: whatever is escaped (as long as every quote and backslash inside the string is), the scan
 // of  escaped(s) q tail  returns s and stops right after the closing quote
 pub proof fn lemma_scan_reads_back(s: Seq<u8>, esc: Set<u8>, q: u8, tail: Seq<u8>)
@@ -133,14 +113,7 @@ pub fn verif_skip1(v: &Vec<u8>) -> (r: Vec<u8>)
 //@ with
             return Err(SyntaxErr::new(verif_opaque_string()));
 //@ replace R4 @<qchars = qchars.iter().skip(1).copied().collect();>@ => @<qchars = verif_skip1(&qchars);>@
-//@ sig r
-    requires stream_wf(rd_stream(*old(s))), stream_seek(rd_stream(*old(s))) >= 1, stream_seek(rd_stream(*old(s))) + rd_rest(*old(s)).len() < usize::MAX
-    ensures
-        stream_wf(rd_stream(*final(s))), stream_same_data(rd_stream(*old(s)), rd_stream(*final(s))),
-        match scan(rd_rest(*old(s)), q, false) {
-            Some((text, n)) => r matches Ok(IRRepr::Quotes(b)) && bv(b) == text && rd_rest(*final(s)) == rd_rest(*old(s)).subrange(n, rd_rest(*old(s)).len() as int),
-            None => r is Err,
-        },
+//@ sigfile r contracts/consume_quoted.sig
 //@ before stmt @<let mut bs = false;>@
     let ghost rest0 = rd_rest(*s);
     let ghost st0 = rd_stream(*s);
@@ -153,9 +126,11 @@ pub fn verif_skip1(v: &Vec<u8>) -> (r: Vec<u8>)
             stream_wf(rd_stream(*s)), stream_same_data(st0, rd_stream(*s)),
             0 <= consumed <= rest0.len(), rd_rest(*s) == rest0.subrange(consumed, rest0.len() as int),
             stream_seek(rd_stream(*s)) + rd_rest(*s).len() < usize::MAX,
+            stream_seek(rd_stream(*s)) + rd_rest(*s).len() == stream_seek(st0) + rest0.len(),
             qchars@.len() >= 1,
         ensures
             stream_wf(rd_stream(*s)), stream_same_data(st0, rd_stream(*s)), qchars@.len() >= 1, 0 <= consumed <= rest0.len(),
+            stream_seek(rd_stream(*s)) + rd_rest(*s).len() == stream_seek(st0) + rest0.len(),
             scan(rest0, q, false) == Some((qchars@.subrange(1, qchars@.len() as int), consumed)),
             rd_rest(*s) == rest0.subrange(consumed, rest0.len() as int),
         decreases rest0.len() - consumed
